@@ -84,7 +84,7 @@ class Engine:
         c = self.canon(t)
         if z3.is_rational_value(c):
             return c if c.numerator_as_long() >= 0 else z3.simplify(-c)
-        k1, k2 = c.sexpr(), self.canon(-t).sexpr()
+        k1, k2 = poly_key(c), poly_key(self.canon(-t))
         key = "abs:" + min(k1, k2)
         if key not in self.notes:
             y = self.fresh_real("abs")
@@ -99,8 +99,8 @@ class Engine:
         seen = set()
         for t in ts:
             c = self.canon(t)
-            if c.sexpr() not in seen:
-                seen.add(c.sexpr()); cs.append(c)
+            if poly_key(c) not in seen:
+                seen.add(poly_key(c)); cs.append(c)
         if all(z3.is_rational_value(c) for c in cs):
             vals = [fractions.Fraction(c.numerator_as_long(), c.denominator_as_long()) for c in cs]
             return rat(max(vals) if which == "max" else min(vals))
@@ -258,6 +258,17 @@ class Engine:
         self.stats["solver_s"] += time.time() - t0
         self.stats["queries"] += 1
         return str(r), (s.model() if r == z3.sat else None)
+
+
+def poly_key(t):
+    """order-insensitive key of a term (arguments of + and * sorted recursively)"""
+    if z3.is_app(t) and t.num_args() > 0:
+        kind = t.decl().kind()
+        ks = [poly_key(c) for c in t.children()]
+        if kind in (z3.Z3_OP_ADD, z3.Z3_OP_MUL):
+            ks.sort()
+        return "(" + t.decl().name() + " " + " ".join(ks) + ")"
+    return t.sexpr()
 
 
 def _conjuncts(b):
@@ -430,13 +441,19 @@ class S:
     def sqrt(s):
         """y with y >= 0 and y*y == s (the path becomes infeasible if s < 0, as sqrt would give nan)"""
         e = E()
-        k = "sqrt:" + s.t.sexpr()
+        c = e.canon(s.t)
+        if z3.is_rational_value(c) and c.numerator_as_long() >= 0:
+            f = fractions.Fraction(c.numerator_as_long(), c.denominator_as_long())
+            n_, d_ = math.isqrt(f.numerator), math.isqrt(f.denominator)
+            if n_ * n_ == f.numerator and d_ * d_ == f.denominator:
+                return S(rat(fractions.Fraction(n_, d_)))
+        k = "sqrt:" + poly_key(c)
         if k in e.notes:
             return e.notes[k]
         y = e.fresh_real("sqrt")
-        e.assume(y >= 0)
-        e.assume(y * y == s.t)
-        e.def_of[y.decl().name()] = z3.And(y >= 0, y * y == s.t)
+        # definitional (always included, also in queries against a truncated path condition); unsatisfiable iff the argument is negative
+        e.define(z3.And(y >= 0, y * y == c))
+        e.def_of[y.decl().name()] = e.defs[-1]
         r = S(y)
         e.notes[k] = r
         return r
